@@ -317,6 +317,11 @@ func TestVerifC13(t *testing.T) {
 	}
 	wg.Wait()
 	rep.Sample(map[string]interface{}{"log_sizes": fmt.Sprintf("0..%d", maxN), "arrivals": c13Arrivals, "queries_per_log": "every (since, until) over entries + nil + unknown id, x reverse"})
+	{
+		w := newVWorld(t, vrep.Seed())
+		c13Concurrent(rep, w)
+		w.close()
+	}
 	c13RPC(rep, t, 3)
 	if vrep.Thorough() {
 		c13RPC(rep, t, 6)
@@ -619,4 +624,55 @@ func c13RPC(rep *vrep.Report, t *testing.T, n int) {
 	}
 	rep.AddStates(1)
 	rep.Sample(map[string]interface{}{"part": "list RPCs", "metadata_entries": len(metaOrder), "message_entries": len(msgOrder)})
+}
+
+// c13Concurrent: two devices of one account append at the same time (neither has seen the other's entries), then
+// exchange everything; a third device receives the lot in the opposite order. All of them hold the same entries and
+// must list them in the same order, forwards and reversed, for the metadata and the message log.
+func c13Concurrent(rep *vrep.Report, w *vWorld) {
+	ctx := w.ctx
+	d1, d2, d3 := w.newDevice("A", nextDev("y")), w.newDevice("A", nextDev("y")), w.newDevice("A", nextDev("y"))
+	gc1, gc2, gc3 := d1.open(d1.accountGroup()), d2.open(d2.accountGroup()), d3.open(d3.accountGroup())
+	c13ShareChainKey(w, gc1, gc2)
+	c13ShareChainKey(w, gc1, gc3)
+	c13ShareChainKey(w, gc2, gc3)
+	env1, env2 := newMEnv(w.seed, gc1.MemberPubKey()), newMEnv(w.seed, gc2.MemberPubKey())
+	for i, op := range []mOp{{Kind: "cr-reset"}, {Kind: "cr-enable"}} {
+		vmust(env1.apply(ctx, gc1.MetadataStore(), op))
+		vmust(env2.apply(ctx, gc2.MetadataStore(), op))
+		_, err := gc1.MessageStore().AddMessage(ctx, []byte(fmt.Sprintf("one-%d", i)))
+		vmust(err)
+		_, err = gc2.MessageStore().AddMessage(ctx, []byte(fmt.Sprintf("two-%d", i)))
+		vmust(err)
+	}
+	m1, m2 := logHashes(gc1.MetadataStore()), logHashes(gc2.MetadataStore())
+	s1, s2 := logHashes(gc1.MessageStore()), logHashes(gc2.MessageStore())
+	w.deliver(gc1.MetadataStore(), reverseCids(m2))
+	w.deliver(gc2.MetadataStore(), reverseCids(m1))
+	w.deliver(gc1.MessageStore(), reverseCids(s2))
+	w.deliver(gc2.MessageStore(), reverseCids(s1))
+	w.deliver(gc3.MetadataStore(), append(append([]cid.Cid{}, m2...), m1...))
+	w.deliver(gc3.MessageStore(), append(append([]cid.Cid{}, s1...), s2...))
+	for _, rev := range []bool{false, true} {
+		var metas, msgs []string
+		for _, gc := range []*GroupContext{gc1, gc2, gc3} {
+			l, err := listMeta(ctx, gc.MetadataStore(), nil, nil, rev)
+			vmust(err)
+			metas = append(metas, strings.Join(l, ","))
+			l2, err := listMsg(ctx, gc.MessageStore(), nil, nil, rev)
+			vmust(err)
+			msgs = append(msgs, strings.Join(l2, ","))
+		}
+		okMeta := metas[0] == metas[1] && metas[1] == metas[2] && strings.Count(metas[0], ",") == len(m1)+len(m2)-1
+		okMsg := msgs[0] == msgs[1] && msgs[1] == msgs[2] && strings.Count(msgs[0], ",") == len(s1)+len(s2)-1
+		rep.Eval(fmt.Sprintf("concurrent-writers/reverse=%v/metadata-same=%v/messages-same=%v", rev, okMeta, okMsg))
+		rep.AddTransitions(6)
+		if !okMeta {
+			rep.Violation("C13/replicas-list-differently", fmt.Sprintf("metadata log, two devices wrote concurrently and exchanged everything (reverse=%v): the three replicas hold the same %d entries and list them in different orders", rev, len(m1)+len(m2)), c13Case{Store: "metadata-concurrent", N: len(m1) + len(m2), Arrival: "concurrent", Since: -1, Until: -1, Reverse: rev})
+		}
+		if !okMsg {
+			rep.Violation("C13/replicas-list-differently", fmt.Sprintf("message log, two devices wrote concurrently and exchanged everything (reverse=%v): the three replicas hold the same %d entries and list them in different orders (or not all of them)", rev, len(s1)+len(s2)), c13Case{Store: "message-concurrent", N: len(s1) + len(s2), Arrival: "concurrent", Since: -1, Until: -1, Reverse: rev})
+		}
+	}
+	rep.AddStates(1)
 }
